@@ -701,6 +701,42 @@ func c01Cases(r *core.Run, prop string) []XZWCase {
 			}
 		}
 	}
+	// (p) values at the boundaries of the container's variable-length integers (7 / 14 / 21 bits) in
+	// the index: uncompressed sizes, block sizes, unpadded sizes and the record count
+	for _, L := range []int{127, 128, 129, 16383, 16384, 16385, 1<<21 - 1, 1 << 21, 1<<21 + 1} {
+		for _, k := range []string{"T", "R"} {
+			if L > 1<<20 && k == "R" {
+				continue
+			}
+			add(XZWCase{Cfg: XZCfg{DictCap: 65536, Check: 1}, Shape: []Seg{{K: k, Seed: 72, N: L}}})
+		}
+	}
+	for _, bs := range []int64{127, 128, 16383, 16384} {
+		add(XZWCase{Cfg: XZCfg{DictCap: 4096, BlockSize: bs, Check: 4}, Shape: []Seg{{K: "R", Seed: 73, N: int(3*bs + 5)}}})
+		add(XZWCase{Cfg: XZCfg{DictCap: 4096, BlockSize: bs}, Shape: []Seg{{K: "T", Seed: 73, N: int(2 * bs)}}})
+	}
+	// unpadded block sizes around 128 and 16384 bytes: incompressible blocks of 100..140 / 16350..16400 bytes
+	for n := 100; n <= 140; n++ {
+		add(XZWCase{Cfg: XZCfg{DictCap: 4096, NoCheck: true}, Shape: []Seg{{K: "R", Seed: 74, N: n}}})
+	}
+	for n := 16350; n <= 16400; n += 2 {
+		add(XZWCase{Cfg: XZCfg{DictCap: 4096, Check: 1}, Shape: []Seg{{K: "R", Seed: 74, N: n}}})
+	}
+	add(XZWCase{Cfg: XZCfg{DictCap: 4096, BlockSize: 1, Check: 1}, Shape: []Seg{{K: "T", Seed: 75, N: 16385}}}) // 16385 records
+	// (q) property sets the .xz format forbids (lc+lp > 4): if the library accepts such a
+	// configuration, what it emits is still judged as an .xz file
+	for _, pr := range [][3]int{{4, 1, 0}, {3, 2, 2}, {2, 3, 1}, {1, 4, 4}, {4, 4, 4}} {
+		add(XZWCase{Cfg: XZCfg{Props: true, LC: pr[0], LP: pr[1], PB: pr[2], DictCap: 4096}, Shape: []Seg{{K: "T", Seed: 76, N: 900}}})
+	}
+	// (r) write partitions with one short and one long call next to each other, inside a block, for
+	// every check type (anything that batches or buffers the data for the check sees both orders)
+	for _, a := range []int{1, 100, 255, 256, 257, 1000} {
+		for _, b := range []int{1, 100, 255, 256, 257, 1000} {
+			for _, ck := range []XZCfg{{DictCap: 4096}, {DictCap: 4096, Check: 1}, {DictCap: 4096, Check: 10}, {DictCap: 4096, BlockSize: 700, Check: 4}} {
+				add(XZWCase{Cfg: ck, Shape: []Seg{{K: "T", Seed: 77, N: 2600}}, Parts: []int{a, b, 50, b, a}})
+			}
+		}
+	}
 	// (i) raw-chunk residency boundary: DictCap+BufSize just below / at / above the size of one full
 	// incompressible chunk (64 KiB), with more than two chunks of incompressible input: the writer
 	// may store a chunk raw only while its bytes are still held by the encoder dictionary
